@@ -247,3 +247,30 @@ def sany(module):
                        stdout=subprocess.PIPE, stderr=subprocess.STDOUT)
     out = p.stdout.decode('utf-8', 'replace')
     return p.returncode == 0 and 'Semantic errors' not in out and 'Parse Error' not in out, out
+
+
+def cached_export(module, cfg, **kw):
+    """export() whose result is kept under /verif/out/cache, keyed by the content of the spec directory's .tla files and the cfg
+    (several checks share the large program enumerations; the cache is rebuilt whenever a specification changes)"""
+    import glob
+    import gzip
+    import hashlib
+    h = hashlib.sha256()
+    for f in sorted(glob.glob(os.path.join(SPEC, '*.tla'))) + [os.path.join(SPEC, cfg)]:
+        with open(f, 'rb') as fh:
+            h.update(fh.read())
+    d = outdir('cache')
+    path = os.path.join(d, '%s_%s_%s.json.gz' % (module, cfg.replace('.cfg', ''), h.hexdigest()[:16]))
+    if os.path.exists(path):
+        try:
+            with gzip.open(path, 'rt') as fh:
+                data = json.load(fh)
+            return data['recs'], data['distinct']
+        except Exception:
+            pass
+    recs, r = export(module, cfg, **kw)
+    tmp = path + '.%d.tmp' % os.getpid()
+    with gzip.open(tmp, 'wt') as fh:
+        json.dump({'recs': recs, 'distinct': r.distinct}, fh)
+    os.rename(tmp, path)
+    return recs, r.distinct
